@@ -137,9 +137,11 @@ func TestVerifC07H(t *testing.T) {
 			t.Fatal(err)
 		}
 	}()
-	depth := 9
+	// the state space is finite (clock offsets are clipped): with enough depth the search
+	// reaches a fixpoint and covers histories of any length over the alphabet
+	depth := 12
 	if vres.Thorough() {
-		depth = 12
+		depth = 80
 	}
 	if vres.ReplayPath() != "" {
 		var rp vh.HReplay
